@@ -266,7 +266,10 @@ def run(ctx):
     C07.r3_atyp_tables(ctx)      # ... and the bytes that follow the destination in the same frame (the first datagrams) are not eaten by the destination decoder
     C01.r13_no_cancel_and_retry_of_framed_reads(ctx)   # a length prefix / datagram body read that is dropped half-way and retried desynchronises the datagram stream
     C07.r1_port_dependence(ctx)    # a domain-typed initial request is resolved through the same cache: the port is the requested one, not a cached one
-    from . import C01 as _C01f
+    from . import C01 as _C01f, C03 as _C03f, C09 as _C09f
+    _C01f.r8_single_forwarder(ctx)     # the forwarder passes each queued chunk on unchanged and in order: the length-prefixed datagram stream is neither merged nor reordered on its way to the wire
+    _C03f.r3_totality(ctx)            # a frame of any legal size is decoded: a maximum-size datagram travels in a frame of up to 65535 bytes
+    _C09f.r3_recv_exits(ctx)
     _C01f.r17_fill_loops_write_at_the_cursor(ctx)   # a length prefix or datagram body cut by a frame boundary is reassembled in order
     r1_prefix_agreement(ctx)
     r3_one_to_one(ctx)
